@@ -42,6 +42,22 @@ theorem conOk_of_not_violated (atol rtol : Rat) (u : UCon) (x : List Rat)
     grind
 
 
+theorem scaledTol_nonneg (atol rtol v : Rat) (ha : 0 ≤ atol) (hr : 0 ≤ rtol) : 0 ≤ scaledTol atol rtol v := by
+  unfold scaledTol
+  have h1 : (1 : Rat) ≤ maxQ 1 (absQ v) := le_maxQ_left _ _
+  have h2 : 0 ≤ rtol * maxQ 1 (absQ v) := Rat.mul_nonneg hr (by grind)
+  grind
+
+/-- in the vocabulary of `Constraint.violation` (needs a non-negative tolerance) -/
+theorem violation_le_of_conOk (atol rtol : Rat) (ha : 0 ≤ atol) (hr : 0 ≤ rtol) (u : UCon) (x : List Rat)
+    (h : ConOk atol rtol u x) : violation u x ≤ scaledTol atol rtol (u.g x) := by
+  have ht := scaledTol_nonneg atol rtol (u.g x) ha hr
+  cases u with | mk sense g =>
+  cases sense <;> simp only [ConOk, violation] at h ⊢
+  · unfold maxQ; split <;> grind
+  · unfold maxQ; split <;> grind
+  · exact h
+
 def BndOk (atol rtol : Rat) (b : Bnd) (xi : Rat) : Prop :=
   (∀ lb, b.lb = some lb → lb - scaledTol atol rtol lb ≤ xi) ∧
   (∀ ub, b.ub = some ub → xi ≤ ub + scaledTol atol rtol ub)
@@ -571,5 +587,731 @@ theorem minimizeBlock_none (w : World) (hw : w.fault = none) (pass a) (s : PStat
   unfold minimizeBlock withHook tryExcept minimizeCall
   simp only [hw, fire_none]
   rfl
+
+
+/-! ### fault-free runs = the pure functional form -/
+
+
+theorem builtKeys_valid (s : PState) : CacheValid { s with solverCache := some builtKeys } := by
+  simp [CacheValid, builtKeys]
+
+theorem Det.congr {α} {P Q : PState → Prop} {m : M α} {r r' : Res α} {evs evs' : List Event}
+    (h : Det P Q m r evs) (hr : r = r') (he : evs = evs') : Det P Q m r' evs' := by
+  subst hr; subst he; exact h
+
+theorem Det.bind_ok' {α β} {P Q T : PState → Prop} {m : M α} {f : α → M β} {a : α} {r : Res β}
+    {e1 e2 evs : List Event} (hm : Det P Q m (.ok a) e1) (hf : Det Q T (f a) r e2) (he : evs = e1 ++ e2) :
+    Det P T (m >>= f) r evs := he ▸ Det.bind_ok hm hf
+
+theorem Det.ensureCache (pl) (w : World) (hw : w.fault = none) (pass) (p : Problem) (ho : p.hasObjective = true) :
+    Det (Inv pl) (InvC pl) (ensureCache w pass p) (.ok ()) [] := by
+  intro s hs
+  cases hc : s.solverCache with
+  | some ks =>
+    rw [ensureCache_some w pass p s ks hc]
+    exact ⟨rfl, by simp, hs, by simp [hc]⟩
+  | none =>
+    rw [ensureCache_none w hw pass p ho s hc]
+    exact ⟨rfl, by simp, ⟨builtKeys_valid s, hs.2⟩, rfl⟩
+
+theorem Det.useCache (pl) : Det (InvC pl) (InvC pl) useCache (.ok ()) [] := by
+  intro s hs
+  obtain ⟨⟨hv, hl⟩, hsome⟩ := hs
+  cases hc : s.solverCache with
+  | none => simp [hc] at hsome
+  | some ks =>
+    have hv' := hv
+    simp only [CacheValid, hc] at hv'
+    rw [useCache_valid s ks hc hv'.1 hv'.2.1 hv'.2.2.1 hv'.2.2.2]
+    exact ⟨rfl, by simp, ⟨hv, hl⟩, hsome⟩
+
+theorem Det.ensureHess (pl) (w : World) (hw : w.fault = none) (pass o method) :
+    Det (InvC pl) (InvC pl) (ensureHess w pass o method) (.ok (hessFlag o method)) [] := by
+  intro s hs
+  obtain ⟨⟨hv, hl⟩, hsome⟩ := hs
+  cases hflag : hessFlag o method with
+  | false =>
+    rw [ensureHess_off w pass o method s hflag]
+    exact ⟨rfl, by simp, ⟨hv, hl⟩, hsome⟩
+  | true =>
+    cases hc : s.solverCache with
+    | none => simp [hc] at hsome
+    | some ks =>
+      cases hk : ks.contains CKey.hessFn with
+      | true =>
+        rw [ensureHess_have w pass o method s hflag ks hc hk]
+        exact ⟨rfl, by simp, ⟨hv, hl⟩, hsome⟩
+      | false =>
+        rw [ensureHess_add w hw pass o method s hflag ks hc hk]
+        exact ⟨rfl, by simp, ⟨(validRel_good pl).cacheAdd s ks _ hc hv, hl⟩, rfl⟩
+
+theorem Det.minimizeBlock (pl) (w : World) (hw : w.fault = none) (pass a) :
+    Det (InvC pl) (InvC pl) (minimizeBlock w pass a) (.ok (some (if pass == 0 then w.r1 else w.r2)))
+      [.minimizeCall a] := by
+  intro s hs
+  rw [minimizeBlock_none w hw pass a s]
+  exact ⟨rfl, rfl, hs⟩
+
+theorem Det.fire_none {P : PState → Prop} (pass st) : Det P P (fire none pass st) (.ok ()) [] := Det.pure ()
+
+/-- a pass of `solve_scipy` without faults, from a valid state: the pure form -/
+theorem Det.scipyPass (pl) (w : World) (hw : w.fault = none) (p : Problem) (ho : p.hasObjective = true) (o pass method) :
+    Det (Inv pl) (Inv pl) (scipyPass w p o pass method) (passPure w p o pass method).1 (passPure w p o pass method).2 := by
+  unfold Solve.scipyPass passPure
+  rw [hw]
+  refine Det.bind_ok' (Det.fire_none _ _) ?_ (List.nil_append _).symm
+  split
+  · exact .pure _
+  · have hg := Det.guard (P := Inv pl) (fun s t h => h) w hw pass "SciPy" o.strict p.vars
+    rw [← hw]
+    rcases hgp : guardPure "SciPy" o.strict p.vars with ⟨_ | e, warn⟩
+    · -- the guard lets the call through
+      rw [hgp] at hg
+      dsimp only at hg ⊢
+      have toInv : ∀ s, InvC pl s → Inv pl s := fun s h => h.1
+      have hpost : ∀ (r : Res (Option Solution)) (evs : List Event),
+          Det (InvC pl) (Inv pl)
+            (match postPass (p.cfg o) method (if (pass == 0) = true then w.r1 else w.r2) with
+              | Pass.raised e => Solve.raise e
+              | Pass.done s => Pure.pure (some s)
+              | Pass.retry => do
+                fire w.fault pass Step.retryWarn
+                Solve.emit Event.warnRetry
+                Pure.pure none)
+            (match postPass (p.cfg o) method (if (pass == 0) = true then w.r1 else w.r2) with
+              | Pass.raised e => Res.exc e
+              | Pass.done s => Res.ok (some s)
+              | Pass.retry => Res.ok none)
+            (match postPass (p.cfg o) method (if (pass == 0) = true then w.r1 else w.r2) with
+              | Pass.retry => [Event.warnRetry]
+              | _ => []) := by
+        intro _ _
+        cases postPass (p.cfg o) method (if (pass == 0) = true then w.r1 else w.r2) with
+        | raised e => exact Det.weaken (Det.raise e) (fun _ h => h) toInv
+        | done sol => exact Det.weaken (Det.pure _) (fun _ h => h) toInv
+        | retry =>
+          dsimp only
+          rw [hw]
+          refine Det.bind_ok' (Det.fire_none _ _) (Det.bind_ok' (Det.emit _ (fun s h => h)) ?_ rfl) rfl
+          exact Det.weaken (Det.pure _) (fun _ h => h) toInv
+      have hfire : ∀ r : ScipyResult, Det (InvC pl) (InvC pl)
+          (if accepted r = true then fireEach w.fault pass (fun k => [Step.postCon k]) (List.range p.cons.length)
+            else Pure.pure ()) (.ok ()) [] := by
+        intro r
+        rw [hw, fireEach_none]
+        split <;> exact Det.pure ()
+      refine Det.congr
+        (r := match postPass (p.cfg o) method (if (pass == 0) = true then w.r1 else w.r2) with
+              | Pass.raised e => Res.exc e
+              | Pass.done s => Res.ok (some s)
+              | Pass.retry => Res.ok none)
+        (evs := warn ++ ([] ++ ([] ++ ([] ++ ([Event.minimizeCall (minArgs p method (hessFlag o method))] ++ ([] ++
+              match postPass (p.cfg o) method (if (pass == 0) = true then w.r1 else w.r2) with
+              | Pass.retry => [Event.warnRetry]
+              | _ => []))))))
+        ?key ?hr ?he
+      case key =>
+        refine Det.bind_ok hg ?_
+        refine Det.bind_ok (Det.ensureCache pl w hw pass p ho) ?_
+        refine Det.bind_ok (Det.useCache pl) ?_
+        refine Det.bind_ok (Det.ensureHess pl w hw pass o method) ?_
+        refine Det.bind_ok (Det.minimizeBlock pl w hw pass _) ?_
+        dsimp only
+        refine Det.bind_ok (hfire _) ?_
+        exact hpost (.ok none) []
+      case hr => cases postPass (p.cfg o) method (if (pass == 0) = true then w.r1 else w.r2) <;> rfl
+      case he => cases postPass (p.cfg o) method (if (pass == 0) = true then w.r1 else w.r2) <;> simp
+    · rw [hgp] at hg
+      dsimp only at hg ⊢
+      exact Det.bind_exc hg
+
+theorem Det.solveScipyF (pl) (w : World) (hw : w.fault = none) (p : Problem) (ho : p.hasObjective = true) (o)
+    (k pass : Nat) (method : String) :
+    Det (Inv pl) (Inv pl) (solveScipyF w p o k pass method) (scipyPureF w p o k pass method).1
+      (scipyPureF w p o k pass method).2 := by
+  induction k generalizing pass method with
+  | zero => exact Det.raise _
+  | succ k ih =>
+    unfold Solve.solveScipyF scipyPureF
+    have hp := Det.scipyPass pl w hw p ho o pass method
+    rcases hpp : passPure w p o pass method with ⟨_ | e, evs⟩
+    · rename_i a
+      rw [hpp] at hp
+      cases a with
+      | none =>
+        dsimp only at hp ⊢
+        exact Det.bind_ok hp (ih _ _)
+      | some sol =>
+        dsimp only at hp ⊢
+        exact Det.bind_ok' hp (Det.pure _) (List.append_nil _).symm
+    · rw [hpp] at hp
+      dsimp only at hp ⊢
+      exact Det.bind_exc hp
+
+theorem linprogBlock_none (w : World) (hw : w.fault = none) (a) (s : PState) :
+    linprogBlock w a s = (.ok (some w.lr), { s with trace := s.trace ++ [.linprogCall a] }) := by
+  unfold linprogBlock tryExcept
+  simp only [hw, fire_none]
+  rfl
+
+theorem ensureLp_none (w : World) (hw : w.fault = none) (s : PState) :
+    ensureLp w s = (.ok (), { s with lpCache := true }) ∨ ensureLp w s = (.ok (), s) := by
+  unfold ensureLp
+  rw [bind_apply]
+  simp only [getState]
+  cases hl : s.lpCache with
+  | true => right; rfl
+  | false =>
+    left
+    simp only [hw, fire_none]
+    rfl
+
+theorem Det.ensureLp (pl) (w : World) (hw : w.fault = none) : Det (Inv pl) (Inv pl) (ensureLp w) (.ok ()) [] := by
+  intro s hs
+  rcases ensureLp_none w hw s with h | h <;> rw [h]
+  · exact ⟨rfl, by simp, hs⟩
+  · exact ⟨rfl, by simp, hs⟩
+
+theorem Det.linprogBlock (pl) (w : World) (hw : w.fault = none) (a) :
+    Det (Inv pl) (Inv pl) (linprogBlock w a) (.ok (some w.lr)) [.linprogCall a] := by
+  intro s hs
+  rw [linprogBlock_none w hw a s]
+  exact ⟨rfl, rfl, hs⟩
+
+theorem Det.solveLP (pl) (w : World) (hw : w.fault = none) (p : Problem) (m strict) :
+    Det (Inv pl) (Inv pl) (solveLP w p m strict) (lpPure w p m strict).1 (lpPure w p m strict).2 := by
+  unfold Solve.solveLP lpPure
+  split
+  · exact Det.raise _
+  · rw [hw]
+    refine Det.bind_ok' (Det.fire_none _ _) ?_ (List.nil_append _).symm
+    split
+    · exact Det.raise _
+    · split
+      · exact Det.raise _
+      · refine Det.bind_ok' (Det.fire_none _ _) ?_ (List.nil_append _).symm
+        have hg := Det.guard (P := Inv pl) (fun s t h => h) w hw 0 "linprog" strict p.vars
+        rcases hgp : guardPure "linprog" strict p.vars with ⟨_ | e, warn⟩
+        · rw [hgp] at hg
+          dsimp only at hg ⊢
+          refine Det.congr
+            (r := match postSolveLP p.lpInfo w.lr with | .ok s => Res.ok s | .error e => Res.exc e)
+            (evs := warn ++ ([] ++ ([Event.linprogCall (linArgs p (m.getD "highs"))] ++ []))) ?key ?hr ?he
+          case key =>
+            refine Det.bind_ok hg ?_
+            refine Det.bind_ok (Det.ensureLp pl w hw) ?_
+            refine Det.bind_ok (Det.linprogBlock pl w hw _) ?_
+            dsimp only
+            cases postSolveLP p.lpInfo w.lr with
+            | ok s => exact Det.pure _
+            | error e => exact Det.raise _
+          case hr => cases postSolveLP p.lpInfo w.lr <;> rfl
+          case he => cases postSolveLP p.lpInfo w.lr <;> simp
+        · rw [hgp] at hg
+          dsimp only at hg ⊢
+          exact Det.bind_exc hg
+
+theorem Det.isLinearProblem (w : World) (hw : w.fault = none) (p : Problem) :
+    Det (Inv p.isLinear) (Inv p.isLinear) (isLinearProblem w p) (.ok p.isLinear) [] := by
+  intro s hs
+  unfold Solve.isLinearProblem
+  rw [bind_apply]
+  simp only [getState]
+  cases hl : s.linCache with
+  | some b =>
+    have : b = p.isLinear := hs.2 b hl
+    subst this
+    exact ⟨rfl, by simp [pure_apply], hs⟩
+  | none =>
+    have e : (do fire w.fault 0 Step.isLinear; setLinCache (some p.isLinear); Pure.pure p.isLinear : M Bool) s
+        = (.ok p.isLinear, { s with linCache := some p.isLinear }) := by
+      rw [hw]; rfl
+    dsimp only
+    rw [e]
+    exact ⟨rfl, by simp, hs.1, (linRel_good p.isLinear).lin s hs.2⟩
+
+/-- **the link**: without faults, from any valid cache state, the monadic model of `Problem.solve`
+    returns what the pure functional form says and emits exactly its events -/
+theorem solve_det (w : World) (hw : w.fault = none) (p : Problem) (o : Opts) :
+    Det (Inv p.isLinear) (Inv p.isLinear) (solve w p o) (solvePure w p o).1 (solvePure w p o).2 := by
+  unfold Solve.solve solvePure
+  split
+  · exact Det.raise _
+  · rename_i ho
+    simp only [Bool.not_eq_true, Bool.not_eq_false'] at ho
+    have ho' : p.hasObjective = true := by cases h : p.hasObjective <;> simp_all
+    by_cases hm : o.method = "auto"
+    · -- auto: the cached / computed linearity verdict decides
+      simp only [hm, beq_self_eq_true, ↓reduceIte, Bool.true_and]
+      refine Det.bind_ok' (Det.isLinearProblem w hw p) ?_ (List.nil_append _).symm
+      refine Det.bind_ok' (a := ()) (e1 := []) (Q := Inv p.isLinear) ?_ ?_ (List.nil_append _).symm
+      · rw [hw]; split <;> exact Det.pure ()
+      · cases route "auto" p.isLinear p.objDeg (List.map (fun x => x.deg) p.cons) with
+        | lp m => exact Det.solveLP _ w hw p m o.strict
+        | scipy m => exact Det.solveScipyF _ w hw p ho' o 2 0 m
+    · have hne : (o.method == "auto") = false := by simpa using hm
+      simp only [hne, Bool.false_and, Bool.false_eq_true, ↓reduceIte]
+      refine Det.bind_ok' (a := false) (e1 := []) (Q := Inv p.isLinear) (Det.pure _) ?_ (List.nil_append _).symm
+      refine Det.bind_ok' (a := ()) (e1 := []) (Q := Inv p.isLinear) (Det.pure _) ?_ (List.nil_append _).symm
+      have hr : route o.method false p.objDeg (List.map (fun x => x.deg) p.cons)
+          = route o.method p.isLinear p.objDeg (List.map (fun x => x.deg) p.cons) := by
+        unfold route; simp [hne]
+      rw [hr]
+      cases route o.method p.isLinear p.objDeg (List.map (fun x => x.deg) p.cons) with
+      | lp m => exact Det.solveLP _ w hw p m o.strict
+      | scipy m => exact Det.solveScipyF _ w hw p ho' o 2 0 m
+
+
+
+/-! ### what happens once the injected fault has fired -/
+
+/-- shape of a result after the fault `f` fired: it propagates, unless it is an `Exception` raised
+    inside `minimize` / `linprog` (caught: a value satisfying `caught`) or inside `extract`
+    (converted into SolverError) -/
+def FiredOutcome {α} (f : Fault) (caught : α → Prop) (r : Res α) : Prop :=
+    (r = .exc (.injected f.baseOnly) ∧
+      ¬ (f.baseOnly = false ∧ (f.step = .minimize ∨ f.step = .linprog ∨ f.step = .extract)))
+  ∨ (r = .exc .solverError ∧ f.step = .extract ∧ f.baseOnly = false)
+  ∨ (∃ a, r = .ok a ∧ caught a ∧ (f.step = .minimize ∨ f.step = .linprog) ∧ f.baseOnly = false)
+
+def FiredSpec {α} (fo : Option Fault) (m : M α) (caught : α → Prop) : Prop :=
+  ∀ s, s.fired = false → (m s).2.fired = true → ∃ f, fo = some f ∧ FiredOutcome f caught (m s).1
+
+/-- `m` cannot be where the fault fires (it leaves `fired` alone) -/
+def Quiet {α} (m : M α) : Prop := ∀ s, (m s).2.fired = s.fired
+
+theorem FiredSpec.of_quiet {α} {fo} {m : M α} {c} (h : Quiet m) : FiredSpec fo m c := by
+  intro s h0 h1
+  rw [h s, h0] at h1
+  cases h1
+
+theorem Quiet.pure {α} (a : α) : Quiet (pure a : M α) := fun _ => rfl
+theorem Quiet.raise {α} (e : Exc) : Quiet (raise e : M α) := fun _ => rfl
+theorem Quiet.emit (ev) : Quiet (emit ev) := fun _ => rfl
+
+theorem hits_some {fo : Option Fault} {pass st b} (h : Fault.hits fo pass st = some b) :
+    ∃ f, fo = some f ∧ f.pass = pass ∧ f.step = st ∧ f.baseOnly = b := by
+  unfold Fault.hits at h
+  cases fo with
+  | none => simp at h
+  | some f =>
+    simp only at h
+    split at h
+    · rename_i hc
+      simp only [Bool.and_eq_true, beq_iff_eq] at hc
+      simp only [Option.some.injEq] at h
+      exact ⟨f, rfl, hc.1, hc.2, h⟩
+    · simp at h
+
+def Step.plain (st : Step) : Prop := st ≠ .minimize ∧ st ≠ .linprog ∧ st ≠ .extract
+
+theorem FiredSpec.fire {fo pass st} (hst : Step.plain st) {c : Unit → Prop} : FiredSpec fo (fire fo pass st) c := by
+  intro s h0 h1
+  simp only [Solve.fire] at h1 ⊢
+  cases hh : Fault.hits fo pass st with
+  | none => simp [hh, h0] at h1
+  | some b =>
+    obtain ⟨f, hf, _, hs, hb⟩ := hits_some hh
+    refine ⟨f, hf, Or.inl ⟨by simp [hb], ?_⟩⟩
+    rintro ⟨_, h | h | h⟩
+    · exact hst.1 (hs ▸ h)
+    · exact hst.2.1 (hs ▸ h)
+    · exact hst.2.2 (hs ▸ h)
+
+/-- the bind rule: if `m` was where the fault fired and its result was a *caught* value `a`, the
+    continuation must just return (it does: `return Solution(FAILED)`) -/
+theorem FiredSpec.bind {α β} {fo} {m : M α} {g : α → M β} {cm : α → Prop} {cg : β → Prop}
+    (hm : FiredSpec fo m cm) (hg : ∀ a, FiredSpec fo (g a) cg)
+    (hc : ∀ a, cm a → ∀ s, ∃ b, g a s = (.ok b, s) ∧ cg b) : FiredSpec fo (m >>= g) cg := by
+  intro s h0 h1
+  have hm' := hm s h0
+  rw [bind_apply] at h1 ⊢
+  generalize m s = ms at h1 hm' ⊢
+  obtain ⟨r, s'⟩ := ms
+  cases hf : s'.fired with
+  | false =>
+    cases r with
+    | ok a => exact hg a s' hf h1
+    | exc e => simp only [hf] at h1; cases h1
+  | true =>
+    obtain ⟨f, hfo, hout⟩ := hm' hf
+    refine ⟨f, hfo, ?_⟩
+    rcases hout with ⟨hr, hn⟩ | ⟨hr, h2⟩ | ⟨a, hr, hca, h2⟩
+    · simp only at hr; subst hr; exact Or.inl ⟨rfl, hn⟩
+    · simp only at hr; subst hr; exact Or.inr (Or.inl ⟨rfl, h2⟩)
+    · simp only at hr; subst hr
+      obtain ⟨b, hb, hcb⟩ := hc a hca s'
+      simp only [hb]
+      exact Or.inr (Or.inr ⟨b, rfl, hcb, h2⟩)
+
+/-- version for steps that are never "caught" -/
+theorem FiredSpec.seq {α β} {fo} {m : M α} {g : α → M β} {cg : β → Prop}
+    (hm : FiredSpec fo m (fun _ => False)) (hg : ∀ a, FiredSpec fo (g a) cg) : FiredSpec fo (m >>= g) cg :=
+  FiredSpec.bind hm hg (fun _ h => h.elim)
+
+theorem FiredSpec.ite {α} {fo} {c : Prop} [Decidable c] {a b : M α} {cc}
+    (ha : FiredSpec fo a cc) (hb : FiredSpec fo b cc) : FiredSpec fo (if c then a else b) cc := by
+  split <;> assumption
+
+theorem FiredSpec.fireAll {fo pass} (l : List Step) (hl : ∀ st ∈ l, Step.plain st) :
+    FiredSpec fo (fireAll fo pass l) (fun _ => False) := by
+  induction l with
+  | nil => exact .of_quiet (.pure _)
+  | cons a t ih =>
+    unfold Solve.fireAll
+    exact .seq (.fire (hl a (by simp))) (fun _ => ih (fun st h => hl st (by simp [h])))
+
+theorem FiredSpec.fireEach {fo pass} (mk : Nat → List Step) (hmk : ∀ k, ∀ st ∈ mk k, Step.plain st) (l : List Nat) :
+    FiredSpec fo (fireEach fo pass mk l) (fun _ => False) := by
+  induction l with
+  | nil => exact .of_quiet (.pure _)
+  | cons a t ih =>
+    unfold Solve.fireEach
+    exact .seq (.fireAll _ (hmk a)) (fun _ => ih)
+
+theorem minimizeBlock_miss (w : World) (pass a) (s : PState) (h : Fault.hits w.fault pass .minimize = none) :
+    minimizeBlock w pass a s =
+      (.ok (some (if pass == 0 then w.r1 else w.r2)), { s with trace := s.trace ++ [.minimizeCall a] }) := by
+  unfold minimizeBlock withHook tryExcept minimizeCall
+  simp only [bind_apply, Solve.emit, Solve.fire, h]
+  rfl
+
+theorem minimizeBlock_hit (w : World) (pass a) (s : PState) (b) (h : Fault.hits w.fault pass .minimize = some b) :
+    minimizeBlock w pass a s =
+      (if b then .exc (.injected true) else .ok none,
+        { s with trace := s.trace ++ [.minimizeCall a], fired := true }) := by
+  unfold minimizeBlock withHook tryExcept minimizeCall
+  simp only [bind_apply, Solve.emit, Solve.fire, h]
+  cases b <;> rfl
+
+theorem FiredSpec.minimizeBlock (w : World) (pass a) :
+    FiredSpec w.fault (minimizeBlock w pass a) (fun r? => r? = none) := by
+  intro s h0 h1
+  cases hh : Fault.hits w.fault pass .minimize with
+  | none => rw [minimizeBlock_miss w pass a s hh] at h1; simp [h0] at h1
+  | some b =>
+    obtain ⟨f, hf, _, hs, hb⟩ := hits_some hh
+    rw [minimizeBlock_hit w pass a s b hh]
+    refine ⟨f, hf, ?_⟩
+    cases b with
+    | true => exact Or.inl ⟨by simp [hb], by simp [hb]⟩
+    | false => exact Or.inr (Or.inr ⟨none, rfl, rfl, Or.inl hs, hb⟩)
+
+theorem linprogBlock_miss (w : World) (a) (s : PState) (h : Fault.hits w.fault 0 .linprog = none) :
+    linprogBlock w a s = (.ok (some w.lr), { s with trace := s.trace ++ [.linprogCall a] }) := by
+  unfold linprogBlock tryExcept
+  simp only [bind_apply, Solve.emit, Solve.fire, h]
+  rfl
+
+theorem linprogBlock_hit (w : World) (a) (s : PState) (b) (h : Fault.hits w.fault 0 .linprog = some b) :
+    linprogBlock w a s =
+      (if b then .exc (.injected true) else .ok none,
+        { s with trace := s.trace ++ [.linprogCall a], fired := true }) := by
+  unfold linprogBlock tryExcept
+  simp only [bind_apply, Solve.emit, Solve.fire, h]
+  cases b <;> rfl
+
+theorem FiredSpec.linprogBlock (w : World) (a) :
+    FiredSpec w.fault (linprogBlock w a) (fun r? => r? = none) := by
+  intro s h0 h1
+  cases hh : Fault.hits w.fault 0 .linprog with
+  | none => rw [linprogBlock_miss w a s hh] at h1; simp [h0] at h1
+  | some b =>
+    obtain ⟨f, hf, _, hs, hb⟩ := hits_some hh
+    rw [linprogBlock_hit w a s b hh]
+    refine ⟨f, hf, ?_⟩
+    cases b with
+    | true => exact Or.inl ⟨by simp [hb], by simp [hb]⟩
+    | false => exact Or.inr (Or.inr ⟨none, rfl, rfl, Or.inr hs, hb⟩)
+
+theorem ensureLp_run (w : World) (s : PState) :
+    ensureLp w s =
+      if s.lpCache then (.ok (), s)
+      else match Fault.hits w.fault 0 .extract with
+        | none => (.ok (), { s with lpCache := true })
+        | some b => (if b then .exc (.injected true) else .exc .solverError, { s with fired := true }) := by
+  unfold ensureLp
+  rw [bind_apply]
+  simp only [getState]
+  by_cases hl : s.lpCache = true
+  · simp only [hl, ↓reduceIte]; rfl
+  · simp only [hl, tryExcept, bind_apply, Solve.fire, Bool.false_eq_true, ↓reduceIte]
+    cases Fault.hits w.fault 0 .extract with
+    | none => rfl
+    | some b => cases b <;> rfl
+
+theorem FiredSpec.ensureLp (w : World) : FiredSpec w.fault (ensureLp w) (fun _ => False) := by
+  intro s h0 h1
+  rw [ensureLp_run] at h1 ⊢
+  cases hl : s.lpCache with
+  | true => simp [hl, h0] at h1
+  | false =>
+    simp only [hl, Bool.false_eq_true, ↓reduceIte] at h1 ⊢
+    cases hh : Fault.hits w.fault 0 .extract with
+    | none => simp [hh, h0] at h1
+    | some b =>
+      obtain ⟨f, hf, _, hs, hb⟩ := hits_some hh
+      refine ⟨f, hf, ?_⟩
+      cases b with
+      | true => exact Or.inl ⟨by simp [hb], by simp [hb]⟩
+      | false => exact Or.inr (Or.inl ⟨rfl, hs, hb⟩)
+
+theorem Quiet.getState : Quiet getState := fun _ => rfl
+theorem Quiet.setSolverCache (c) : Quiet (setSolverCache c) := fun _ => rfl
+theorem Quiet.setLinCache (c) : Quiet (setLinCache c) := fun _ => rfl
+
+theorem plain_of_ne {st : Step} (h1 : st ≠ .minimize) (h2 : st ≠ .linprog) (h3 : st ≠ .extract) : Step.plain st :=
+  ⟨h1, h2, h3⟩
+
+macro "plain_step" : tactic => `(tactic| (refine plain_of_ne ?_ ?_ ?_ <;> (intro h; cases h)))
+
+theorem FiredSpec.guard (w pass solver strict vars) :
+    FiredSpec w.fault (guard w pass solver strict vars) (fun _ => False) := by
+  unfold Solve.guard
+  dsimp only
+  split
+  · exact .of_quiet (.pure _)
+  · split
+    · exact .of_quiet (.raise _)
+    · exact .seq (.fire (by plain_step)) (fun _ => .of_quiet (.emit _))
+
+theorem FiredSpec.ensureCache (w pass p) : FiredSpec w.fault (ensureCache w pass p) (fun _ => False) := by
+  unfold Solve.ensureCache
+  refine .seq (.of_quiet .getState) (fun s => ?_)
+  split
+  · exact .of_quiet (.pure _)
+  · split
+    · exact .of_quiet (.raise _)
+    · refine .seq (.fire (by plain_step)) fun _ => .seq (.fire (by plain_step)) fun _ =>
+        .seq (.fireEach _ ?_ _) fun _ => .of_quiet (.setSolverCache _)
+      intro k st hst
+      simp only [List.mem_cons, List.mem_nil_iff, or_false] at hst
+      rcases hst with rfl | rfl <;> plain_step
+
+theorem FiredSpec.useCache (fo) : FiredSpec fo useCache (fun _ => False) := by
+  unfold Solve.useCache
+  refine .seq (.of_quiet .getState) (fun s => ?_)
+  split
+  · exact .of_quiet (.raise _)
+  · split
+    · split
+      · exact .of_quiet (.pure _)
+      · exact .of_quiet (.setSolverCache _)
+    · exact .of_quiet (.raise _)
+
+theorem FiredSpec.ensureHess (w pass o method) : FiredSpec w.fault (ensureHess w pass o method) (fun _ => False) := by
+  unfold Solve.ensureHess
+  split
+  · refine .seq (.of_quiet .getState) (fun s => ?_)
+    split
+    · exact .of_quiet (.raise _)
+    · split
+      · exact .of_quiet (.pure _)
+      · exact .seq (.fire (by plain_step)) fun _ => .seq (.of_quiet (.setSolverCache _)) fun _ => .of_quiet (.pure _)
+  · exact .of_quiet (.pure _)
+
+theorem FiredSpec.scipyPass (w p o pass method) :
+    FiredSpec w.fault (scipyPass w p o pass method) (fun r => r = some failedSolution) := by
+  unfold Solve.scipyPass
+  refine .seq (.fire (by plain_step)) fun _ => ?_
+  split
+  · exact .of_quiet (.pure _)
+  · refine .seq (.guard _ _ _ _ _) fun _ => .seq (.ensureCache _ _ _) fun _ => .seq (.useCache _) fun _ =>
+      .seq (.ensureHess _ _ _ _) fun useHess => .bind (.minimizeBlock _ _ _) (fun r? => ?_) ?_
+    · cases r? with
+      | none => exact .of_quiet (.pure _)
+      | some r =>
+        dsimp only
+        refine .seq ?_ fun _ => ?_
+        · split
+          · refine .fireEach _ ?_ _
+            intro k st hst
+            simp only [List.mem_cons, List.mem_nil_iff, or_false] at hst
+            subst hst; plain_step
+          · exact .of_quiet (.pure _)
+        · split
+          · exact .of_quiet (.raise _)
+          · exact .of_quiet (.pure _)
+          · exact .seq (.fire (by plain_step)) fun _ => .seq (.of_quiet (.emit _)) fun _ => .of_quiet (.pure _)
+    · intro a ha s
+      subst ha
+      exact ⟨_, rfl, rfl⟩
+
+theorem FiredSpec.solveScipyF (w p o) (k pass : Nat) (method : String) :
+    FiredSpec w.fault (solveScipyF w p o k pass method) (fun sol => sol = failedSolution) := by
+  induction k generalizing pass method with
+  | zero => exact .of_quiet (.raise _)
+  | succ k ih =>
+    unfold Solve.solveScipyF
+    refine .bind (.scipyPass _ _ _ _ _) (fun r => ?_) ?_
+    · cases r with
+      | none => exact ih _ _
+      | some sol => exact .of_quiet (.pure _)
+    · intro a ha s
+      subst ha
+      exact ⟨_, rfl, rfl⟩
+
+theorem FiredSpec.solveLP (w p m strict) :
+    FiredSpec w.fault (solveLP w p m strict) (fun sol => sol = failedSolution) := by
+  unfold Solve.solveLP
+  split
+  · exact .of_quiet (.raise _)
+  · refine .seq (.fire (by plain_step)) fun _ => ?_
+    split
+    · exact .of_quiet (.raise _)
+    · split
+      · exact .of_quiet (.raise _)
+      · refine .seq (.fire (by plain_step)) fun _ => .seq (.guard _ _ _ _ _) fun _ => .seq (.ensureLp _) fun _ =>
+          .bind (.linprogBlock _ _) (fun r? => ?_) ?_
+        · cases r? with
+          | none => exact .of_quiet (.pure _)
+          | some r =>
+            dsimp only
+            split
+            · exact .of_quiet (.pure _)
+            · exact .of_quiet (.raise _)
+        · intro a ha s
+          subst ha
+          exact ⟨_, rfl, rfl⟩
+
+theorem FiredSpec.isLinearProblem (w p) : FiredSpec w.fault (isLinearProblem w p) (fun _ => False) := by
+  unfold Solve.isLinearProblem
+  refine .seq (.of_quiet .getState) (fun s => ?_)
+  split
+  · exact .of_quiet (.pure _)
+  · exact .seq (.fire (by plain_step)) fun _ => .seq (.of_quiet (.setLinCache _)) fun _ => .of_quiet (.pure _)
+
+theorem FiredSpec.solve (w p o) : FiredSpec w.fault (solve w p o) (fun sol => sol = failedSolution) := by
+  unfold Solve.solve
+  split
+  · exact .of_quiet (.raise _)
+  · refine .seq ?_ fun lin => .seq ?_ fun _ => ?_
+    · split
+      · exact .isLinearProblem _ _
+      · exact .of_quiet (.pure _)
+    · split
+      · exact .fire (by plain_step)
+      · exact .of_quiet (.pure _)
+    · split
+      · exact .solveLP _ _ _ _
+      · exact .solveScipyF _ _ _ _ _ _
+
+
+/-! ### reading results off the pure form -/
+
+theorem lookup_mem {α β} [BEq α] (k : α) (l : List (α × β)) (v : β) (h : l.lookup k = some v) :
+    ∃ k', (k', v) ∈ l := by
+  induction l with
+  | nil => simp [List.lookup] at h
+  | cons p t ih =>
+    obtain ⟨k', v'⟩ := p
+    simp only [List.lookup] at h
+    split at h
+    · injection h with h; subst h; exact ⟨k', by simp⟩
+    · obtain ⟨k'', hk⟩ := ih h; exact ⟨k'', by simp [hk]⟩
+
+/-- no entry of the regenerated linprog status table maps to OPTIMAL -/
+theorem lpStatusMap_never_optimal :
+    ∀ p ∈ Generated.lpStatusMap, (Status.ofName p.2).getD .failed ≠ .optimal := by decide
+
+theorem lpStatus_optimal {r : LPResult} (h : lpStatus r = .optimal) : r.success = true := by
+  unfold lpStatus at h
+  cases hs : r.success with
+  | true => rfl
+  | false =>
+    simp only [hs, Bool.false_eq_true, ↓reduceIte] at h
+    split at h
+    · rename_i n hn
+      obtain ⟨k, hk⟩ := lookup_mem _ _ _ hn
+      exact absurd h (lpStatusMap_never_optimal _ hk)
+    · cases h
+
+theorem lpPure_ok (w : World) (p : Problem) (m : Option String) (strict : Bool) (sol : Solution)
+    (h : (lpPure w p m strict).1 = .ok sol) : postSolveLP p.lpInfo w.lr = .ok sol := by
+  unfold lpPure at h
+  split at h
+  · cases h
+  · split at h
+    · cases h
+    · split at h
+      · cases h
+      · split at h
+        · cases h
+        · dsimp only at h
+          split at h
+          · rename_i s hs
+            injection h with h; subst h; exact hs
+          · cases h
+
+theorem passPure_ok (w : World) (p : Problem) (o : Opts) (pass : Nat) (m : String) (a : Option Solution)
+    (h : (passPure w p o pass m).1 = .ok a) :
+    a = some failedSolution ∨
+      (∃ s, a = some s ∧ postPass (p.cfg o) m (if pass == 0 then w.r1 else w.r2) = .done s) ∨
+      (a = none ∧ postPass (p.cfg o) m (if pass == 0 then w.r1 else w.r2) = .retry) := by
+  unfold passPure at h
+  split at h
+  · injection h with h; left; exact h.symm
+  · split at h
+    · cases h
+    · dsimp only at h
+      split at h
+      · cases h
+      · rename_i s hs
+        injection h with h
+        right; left; exact ⟨s, h.symm, hs⟩
+      · rename_i hs
+        injection h with h
+        right; right; exact ⟨h.symm, hs⟩
+
+theorem scipyPure_ok (w : World) (p : Problem) (o : Opts) (m : String) (sol : Solution)
+    (h : (scipyPure w p o m).1 = .ok sol) :
+    sol = failedSolution ∨ postSolveScipy (p.cfg o) m w.r1 w.r2 = .done sol := by
+  unfold scipyPure at h
+  simp only [scipyPureF] at h
+  rcases hp1 : passPure w p o 0 m with ⟨r1, ev1⟩
+  rw [hp1] at h
+  cases r1 with
+  | exc e => cases h
+  | ok a1 =>
+    have h1 := passPure_ok w p o 0 m a1 (by rw [hp1])
+    simp only [beq_self_eq_true, ↓reduceIte] at h1
+    cases a1 with
+    | some s1 =>
+      dsimp only at h
+      injection h with h; subst h
+      rcases h1 with h1 | ⟨s, hs, hd⟩ | ⟨hn, _⟩
+      · left; injection h1
+      · right
+        injection hs with hs; subst hs
+        unfold postSolveScipy
+        simp only [postSolveScipyF, hd]
+      · cases hn
+    | none =>
+      dsimp only at h
+      rcases h1 with h1 | ⟨s, hs, _⟩ | ⟨_, hretry⟩
+      · cases h1
+      · cases hs
+      · rcases hp2 : passPure w p o (0 + 1) "trust-constr" with ⟨r2, ev2⟩
+        rw [hp2] at h
+        cases r2 with
+        | exc e => cases h
+        | ok a2 =>
+          have h2 := passPure_ok w p o (0 + 1) "trust-constr" a2 (by rw [hp2])
+          have hb : ((0 + 1 : Nat) == 0) = false := by decide
+          simp only [hb, Bool.false_eq_true, ↓reduceIte] at h2
+          cases a2 with
+          | some s2 =>
+            dsimp only at h
+            injection h with h; subst h
+            rcases h2 with h2 | ⟨s, hs, hd⟩ | ⟨hn, _⟩
+            · left; injection h2
+            · right
+              injection hs with hs; subst hs
+              unfold postSolveScipy
+              simp only [postSolveScipyF, hretry, hd]
+            · cases hn
+          | none =>
+            dsimp only at h
+            cases h
 
 end Optyx.Py.Solve
